@@ -16,7 +16,8 @@ type IdentityCache struct {
 	repo          repository.ClockedRepo
 	entityUpdated func(id entity.Id) error
 
-	mu sync.Mutex
+	mu      sync.Mutex
+	removed bool
 	*identity.Identity
 }
 
@@ -44,6 +45,10 @@ func (i *IdentityCache) Mutate(repo repository.RepoClock, f func(*identity.Mutat
 
 func (i *IdentityCache) Commit() error {
 	i.mu.Lock()
+	if i.removed {
+		i.mu.Unlock()
+		return ErrEntityRemoved
+	}
 	err := i.Identity.Commit(i.repo)
 	i.mu.Unlock()
 	if err != nil {
@@ -54,6 +59,10 @@ func (i *IdentityCache) Commit() error {
 
 func (i *IdentityCache) CommitAsNeeded() error {
 	i.mu.Lock()
+	if i.removed {
+		i.mu.Unlock()
+		return ErrEntityRemoved
+	}
 	err := i.Identity.CommitAsNeeded(i.repo)
 	i.mu.Unlock()
 	if err != nil {
@@ -64,4 +73,11 @@ func (i *IdentityCache) CommitAsNeeded() error {
 
 func (i *IdentityCache) Lock() {
 	i.mu.Lock()
+}
+
+func (i *IdentityCache) setRemoved(removed bool) {
+	// waits for a commit in progress: its references are deleted by the removal that follows
+	i.mu.Lock()
+	i.removed = removed
+	i.mu.Unlock()
 }
